@@ -362,9 +362,9 @@ pub fn minimise(sc: &dyn Scenario, plan: Value, viol: &Viol) -> (Value, Viol, u6
         progress = false;
         for cand in sc.shrink(&cur) {
             execs += 1;
-            if let Some(v) = reproduces(sc, &cand, &viol.check_id, Some(&viol.signature)) {
+            if let Some(v) = reproduces(sc, &cand, &viol.check_id, None) {
                 // the reproducing plan reported by the run may be narrower still
-                cur = v.plan.clone().filter(|p| reproduces(sc, p, &viol.check_id, Some(&viol.signature)).is_some()).unwrap_or(cand);
+                cur = v.plan.clone().filter(|p| reproduces(sc, p, &viol.check_id, Some(&v.signature)).is_some()).unwrap_or(cand);
                 curv = v;
                 progress = true;
                 break;
@@ -430,6 +430,9 @@ pub fn finish(rep: &Report, scenarios: &[Box<dyn Scenario>], stats: &BatchStats,
         } else {
             (f.plan.clone(), f.viol.clone(), 0)
         };
+        if viol.signature != f.viol.signature && !seen.insert((viol.check_id.clone(), viol.signature.clone())) {
+            continue; // minimised to a violation already reported
+        }
         let is_known = known.matches(rep.property, &viol).or_else(|| known.matches(rep.property, &f.viol));
         let fname = format!(
             "{}-{}-{}.json",
